@@ -584,10 +584,17 @@ class World:
 			self.app = app = SimApp()
 		finally:
 			sys.argv = old_argv
-		gen = app.clck_gen
-		gen.clck_start = cfg.get("clck_start", 0)
-		gen.ind_period = cfg.get("ind_period", 102)
-		orig = gen.clck_handler
+		# from here on the harness relies on the public attributes Application itself uses
+		# (clck_gen, clck_handler, start, run): if they are gone, that is a harness problem,
+		# never a property violation
+		try:
+			gen = app.clck_gen
+			gen.clck_start = cfg.get("clck_start", 0)
+			gen.ind_period = cfg.get("ind_period", 102)
+			orig = gen.clck_handler
+			gen.start, app.run
+		except AttributeError as e:
+			raise HarnessError("fake_trx.Application no longer offers what the harness drives: %s" % e)
 		world = self
 
 		def handler(fn):
